@@ -139,7 +139,14 @@ def install(E: Any) -> None:
 
     def m_strftime(self: Any, obj: Any, n: ast.Call, st: Any) -> Any:
         trust()
-        if len(n.args) == 1 and isinstance(n.args[0], ast.Constant) and n.args[0].value == PV_FORMAT:
+        is_pv = len(n.args) == 1 and isinstance(n.args[0], ast.Constant) and n.args[0].value == PV_FORMAT
+        if not is_pv and len(n.args) == 1 and not isinstance(n.args[0], ast.Constant):
+            try:
+                fv = self.expr(n.args[0], st)   # e.g. a local variable holding the format
+                is_pv = fv.ty == STR and fv.t.eq(self.strlit(PV_FORMAT).t)
+            except Unsupported:
+                is_pv = False
+        if is_pv:
             if not self.mode_spec:
                 self.emit(st, z3.And(0 <= obj.t, obj.t <= K9999), "datetime.strftime.requires.year_range", text="year 1970..9999")
             return V(str_of(obj.t), STR)
